@@ -28,6 +28,8 @@ import sys, os
 sys.path.insert(0, os.path.join(os.getcwd(), 'rules'))
 import engine
 try:
+    engine.extract_fixture_facts()
+    print('setup: positive-control crate analysed')
     r, info = engine.run_witnesses()
     print('setup: witness crate ready (%d witnesses, %s)' % (len(r), info))
 except Exception as e:
